@@ -57,6 +57,11 @@ package server
 //@   loop 6 invariant forall f bgp.Family :: has(negotiated, f) ==> (negotiated[f] & bgp.BGP_ADD_PATH_SEND > 0 ==> local[f] & bgp.BGP_ADD_PATH_SEND > 0 && remote[f] & bgp.BGP_ADD_PATH_RECEIVE > 0)
 //@   loop 6 invariant forall f bgp.Family :: has(negotiated, f) ==> (negotiated[f] & bgp.BGP_ADD_PATH_RECEIVE > 0 ==> local[f] & bgp.BGP_ADD_PATH_RECEIVE > 0 && remote[f] & bgp.BGP_ADD_PATH_SEND > 0)
 //@   loop 6 step has(remote, family) ==> has(negotiated, family)
+// ... and a family counts as announced by the peer only through a Multiprotocol capability (an ADD-PATH tuple
+// alone does not announce a family): handling one Multiprotocol capability adds at most that capability's family
+//@   loop 3 step forall f bgp.Family :: has(remote, f) ==> header(has(remote, f)) || f == family
+//@   loop 4 invariant forall f bgp.Family :: has(remote, f) ==> pre(has(remote, f)) || f == family
+//@   loop 5 invariant forall f bgp.Family :: has(remote, f) ==> pre(has(remote, f)) || f == family
 //@ func (*fsm).stateChange
 //@   claims at-call
 //@   at-call fsm.gConf.IsConfederationMember( requires conf.Timers.State.NegotiatedHoldTime == (float64(body.HoldTime) > conf.Timers.Config.HoldTime ? conf.Timers.Config.HoldTime : float64(body.HoldTime))
@@ -67,6 +72,9 @@ package server
 //@   at-call fsm.gConf.IsConfederationMember( requires asnNegotiationSkipped ==> (conf.State.PeerType == oc.PEER_TYPE_INTERNAL <==> remoteAS == localAS) && (conf.State.PeerType == oc.PEER_TYPE_INTERNAL || conf.State.PeerType == oc.PEER_TYPE_EXTERNAL)
 //@   at-call fsm.gConf.IsConfederationMember( requires !asnNegotiationSkipped ==> conf.State.PeerType == conf.Config.PeerType
 //@   at-call fsm.gConf.IsConfederationMember( requires conf.State.PeerAs == remoteAS
+// from C08: "messages above 4096 octets only if the peer announced Extended Message": the session's flag is set
+// exactly when the peer's capability list has the capability (also when an earlier session on this neighbour had it)
+//@   at-call fsm.gConf.IsConfederationMember( requires (fsm.extendedMessage.v != 0) <==> has(fsm.capMap, bgp.BGP_CAP_EXTENDED_MESSAGE)
 
 // from C08: "the OPEN sent reflects the configuration (AS_TRANS for 4-octet local AS)"
 //@ func buildopen
